@@ -43,7 +43,7 @@ def obligations(r):
     obl.append(('at_most_one_draw', z3.BoolVal(r.ndraws <= 1)))
     flags = [conn, perm, undef]
     obl.append(('no_success_with_error_flag', z3.Not(z3.And(succ, z3.Or(flags)))))
-    obl.append(('at_most_one_error_flag', z3.AtMost(*flags, 1)))
+    obl.append(('at_most_one_error_flag', sx.at_most_one(flags)))
     same = common.rows_equal(r.pre_rows, r.post_rows)
     obl.append(('undefined_error_changes_and_gains_nothing',
                 z3.Implies(undef, z3.And(same, val == 0, z3.Not(succ)))))
